@@ -75,6 +75,17 @@ let buffer_line_interrupt =
 let buffer_line_cr =
   Npos (Coq_xI (Coq_xO (Coq_xI Coq_xH)))
 
+(** val buffer_queue_capacity : coq_N **)
+
+let buffer_queue_capacity =
+  Npos (Coq_xO (Coq_xO (Coq_xO (Coq_xO (Coq_xI (Coq_xO (Coq_xO (Coq_xO
+    (Coq_xI (Coq_xI (Coq_xI (Coq_xO (Coq_xO Coq_xH)))))))))))))
+
+(** val buffer_add_blocks : bool **)
+
+let buffer_add_blocks =
+  true
+
 (** val det_min_len : coq_N **)
 
 let det_min_len =
